@@ -20,6 +20,10 @@ CHECKS = {
   text="TLC checks exhaustively that the pc-machine transcription of uri/normalize.go refines the abstract Canon/Invalid layer on all strings up to the bound, and the real function is bound to the same abstract layer by replaying every TLC-enumerated string (plus seeded random byte strings) through it and letting TLC judge each observed outcome; spec path keys are judged modulo the same equivalence through parser.Parse.",
   note="Bounded: strings up to length 6 (quick) / 7 (thorough) over a 9-symbol class alphabet, 7 / 9 over a 5-symbol one, random strings up to 64 bytes. Trusted: TLC, the CommunityModules Json reader, the byte<->int projection in prop/c12.",
   tech=TECH+"TLC-enumerated replay into uri.NormalizeEscapedPath with TLC-evaluated observation check"),
+ "C15": dict(cat="model_checking", ref="DESIGN.md §5 C15, appendix A.3",
+  text="spec/ServerPipeline.tla orders the stages of handlers.tmpl (route, security, params, body, middleware/handler, encode) as a machine with environment-chosen stage outcomes; TLC checks that every event sequence it can produce is accepted by the trace acceptor and meets the generic obligations (exactly one response, a failing stage returns, handler only after every earlier stage passed, status class per failing stage). The same acceptor validates concatenated event traces of regenerated servers (two matrix specs with/without convenient errors, plus corpus specs) serving hand-built requests of known failure classes, seeded byte-level mutants and random requests; events come from middleware, ErrorHandler, a synthesised NewError, a counting ResponseWriter and recover().",
+  note="Classified expectations exist only for the two matrix specs written by the harness; corpus and mutated/random requests are judged by the generic obligations only (the permissive shape is used so that no expectation is derived from ogen's IR). OPTIONS preflight (204) of the default MethodNotAllowed handler is modelled as deliberate behaviour. Trusted: TLC, Json module, go/parser for glue synthesis.",
+  tech="explicit TLA+ stage machine + acceptor; TLC exhaustive check of the machine; trace validation of regenerated servers' event traces by TLC"),
  "C16": dict(cat="model_checking", ref="DESIGN.md §5 C16",
   text="RFC 6901 evaluation is the abstract layer of spec/JSONPointer.tla; TLC checks that the pc-machine transcription of Resolve/find/findIdx refines it for three adversarial documents and all pointers up to 3 raw tokens in three spellings, and every enumerated pointer plus seeded random trees (valid pointers to every node, fragment spellings, single-edit mutants, JSON and YAML documents) is resolved by the real jsonpointer.Resolve with the returned node's identity judged by TLC.",
   note="Bounded token count and tree depth; duplicate member names and YAML aliases are outside the domain; a dangling '~' may be read literally or refused (both admitted, DESIGN.md §5 C16). Trusted: TLC, Json module, go-faster/yaml as document parser, node identity by pointer comparison.",
